@@ -77,15 +77,33 @@ def cases(tier):
 
 
 def init_worker(tier):
+    """Workers run in a private scratch directory (PSyclone / gfortran may
+    create files in the cwd).  Pool workers are terminated without running
+    atexit handlers, so the parent removes the directories in finish()."""
     global _TIER
     _TIER = tier
     _corpus(tier)
     from mc import runner
-    path = runner.scratch_dir("c07")
-    os.chdir(path)
     import atexit
     import shutil
+    path = runner.scratch_dir(f"c07-{os.getppid()}")
+    os.chdir(path)
     atexit.register(shutil.rmtree, path, True)
+    _SCRATCH.append(path)
+
+
+_SCRATCH = []
+
+
+def finish(tier, totals):
+    import glob
+    import shutil
+    base = os.environ.get("VERIF_SCRATCH") or "/dev/shm"
+    for path in _SCRATCH + glob.glob(os.path.join(base, f"verif.c07-{os.getpid()}.*")):
+        if os.getcwd().startswith(path):
+            os.chdir(os.path.dirname(os.path.dirname(os.path.dirname(os.path.abspath(__file__)))))
+        shutil.rmtree(path, ignore_errors=True)
+    return {}
 
 
 # --------------------------------------------------------------------------
@@ -328,10 +346,11 @@ def diag_fn(tree, fresh, run_tree, att, bad, inputs, orig):
                      exactly like the original executed with call-by-name
                      argument passing (actual arguments re-evaluated at every
                      use of the dummy);
-    wrong            anything else."""
+    wrong[names]     anything else; names = the observable variables that
+                     differ (or undefined:<kind>)."""
     from psyclone.psyir import nodes as N
     from psyclone.psyir.symbols import DataSymbol
-    from mc.fortsem import equiv
+    from mc.fortsem import equiv, interp as I
     if run_tree is None:
         tag = bad[0][0]
         if tag.startswith("invalid:undeclared("):
@@ -358,12 +377,47 @@ def diag_fn(tree, fresh, run_tree, att, bad, inputs, orig):
                     names.add(sym.name.lower())
         return f"capture({','.join(sorted(names))})"
     # -- call by name
+    by_name = True
+    differs = set()
     for ikey, _msg in bad:
-        want = _run_obs(tree, makers[ikey](), by_name=True)
         got = _run_obs(run_tree, makers[ikey]())
-        if want[0] == "unsupported" or want != got:
-            return "wrong"
-    return "by-name"
+        if by_name:
+            want = _run_obs(tree, makers[ikey](), by_name=True)
+            if want[0] == "unsupported" or want != got:
+                by_name = False
+        if got[0] != "ok":
+            differs.add(f"undefined:{got[1]}")
+        else:
+            for loc, val in orig[ikey].items():
+                if val is not I.POISON and got[1].get(loc) != val:
+                    differs.add(str(loc[0]))
+    if by_name:
+        return "by-name"
+    return f"wrong[{','.join(sorted(differs))}]"
+
+
+def features(key):
+    """Known defect mechanisms whose (syntactic) trigger is present in the
+    program; used to group the signatures of `wrong` results."""
+    _fam, rest = key.split(":", 1)
+    kinds, body, actuals, place, _naming, _ret = rest.split("|")
+    acts = G._split_actuals(actuals)
+    stmts = G.parse_body(body)
+    out = set()
+    for pos, kind in enumerate(kinds):
+        if kind not in "EZAL":
+            continue
+        used = {name for name, slots in stmts if pos in slots[:1] or
+                (name == "xcp" and pos in slots)}
+        if place.startswith("f") and pos == 0:
+            used.add("result")
+        if acts[pos] == "w%d" and kind in "ZL" and used - {"whole", "full"}:
+            out.add("component-actual-not-shifted-to-dummy-bounds")
+        if "bnd" in used and (kind in "ZL" or acts[pos] == "a~short"):
+            out.add("bounds-inquiry-answers-for-the-actual")
+        if acts[pos] == "a~short" and used & {"whole", "sum"}:
+            out.add("whole-dummy-becomes-whole-larger-actual")
+    return sorted(out)
 
 
 def run_program(key, src, label=None):
@@ -374,7 +428,8 @@ def run_program(key, src, label=None):
         return out if label is None else [a for a in out if a.label == label]
     return transcheck.check_program(
         key, src, attempts, _inputs(), routine="drv", monitor=Monitor,
-        exec_view=exec_view, fresh_parse=True, diag_fn=diag_fn, sig_fn=sig_fn)
+        exec_view=exec_view, fresh_parse=True, consume_tree=True,
+        diag_fn=diag_fn, sig_fn=sig_fn)
 
 
 def sig_fn(tname, label, key, bad, diag):
@@ -388,6 +443,9 @@ def sig_fn(tname, label, key, bad, diag):
         return "InlineTrans|actual-arguments-re-evaluated-at-each-use(call-by-name)"
     if diag.startswith("invalid:undeclared("):
         return f"InlineTrans|{diag}|dummies={kinds}"
+    feats = features(key)
+    if diag.startswith("wrong[") and feats:
+        return f"InlineTrans|{diag}|{'+'.join(feats)}"
     short = ",".join(b.replace("=", "").replace(",", "") for b in bad)
     return f"{label}|{key}|{diag}|bad@{short}"
 
